@@ -115,6 +115,9 @@ def run(ctx):
     mn, mc, me = calling(gt, attr="_merge_names"), calling(gt, attr="_do_merge_contents"), calling(gt, attr="_merge_executable")
     ctx.check("D5-one-resolver", wt, bool(mn and mc and me) and gt.always_before(mn, mc)[0] and gt.always_before(mn, me)[0] and all(m_ > c_ for m_ in [gt.nodes[i].lineno for i in me] for c_ in [gt.nodes[i].lineno for i in mc]), "per entry: names first, contents (when merged) before the execute bit, which needs the contents' status")
     # ---- D6: a copy reported by OTHER is merged as an add, contents included ------------------------------------------
+    el = [n for n in ast.walk(ft) if isinstance(n, ast.For) and norm(n.iter).startswith("enumerate(") and isinstance(n.target, ast.Tuple) and len(n.target.elts) == 2 and isinstance(n.target.elts[1], ast.Tuple) and len(n.target.elts[1].elts) == 7]
+    ctx.require(len(el) == 1, f"{wt}: the loop over the merge entries was not found")
+    ft = canonicalise(ft, dict(zip(["file_id", "changed", "paths3", "parents3", "names3", "executable3", "copied"], [norm(e) for e in el[0].target.elts[1].elts])))
     cp = [n for n in ast.walk(ft) if isinstance(n, ast.If) and norm(n.test) == "copied"]
     ok = len(cp) == 1
     if ok:
@@ -126,6 +129,7 @@ def run(ctx):
     ctx.check("D6-copy-merged-as-add", wt, len(uses_changed) == 1, "_do_merge_contents is called for entries whose content changed")
     # ---- D7: the parent handed to adjust_path is resolved in the winning tree ---------------------------------------
     fnn = repo.func(MG, f"{M}._merge_names")
+    fnn = canonicalise(fnn, bind_roles(fnn, {"winning_tree": ("assign", lambda t, n: isinstance(n, ast.Subscript) and isinstance(n.value, ast.Tuple) and "self.this_tree" in t), "winning_entry_path": ("assign", lambda t, n: isinstance(n, ast.Subscript) and isinstance(n.value, ast.Tuple) and "this_path" in t and "self." not in t), "winning_parent_path": ("assign", "_path_dirname({winning_entry_path})")}, wn))
     adjs = [c for c in calls_in(fnn) if call_attr(c) == "adjust_path" and call_recv(c) == "self.tt"]
     ok = len(adjs) == 1 and isinstance(adjs[0].args[1], ast.Name)
     srcs = []
